@@ -364,6 +364,7 @@ def operand(mode, ytyp, s, sp, d, dp, xspec, kfar, near):
 
 def enumerate_cases(tier):
     setup(tier)
+    yield {"cli": 1}
     per = 3 if tier == "quick" else 9
     n = 0
     modes = ["far", "near", "tie", "near"]
@@ -575,10 +576,75 @@ def _region(k):
     return "above-0C"
 
 
+def _run_cli(out):
+    """the command line (`measured <quantity>`, measured.cli.print_quantity) lists a temperature on
+    every other scale with a conversion routine of its own: what it lists, for every scale, prefix
+    and a few magnitudes, is held to the affine definitions as well"""
+    import contextlib
+    import io
+
+    try:
+        import measured.cli as cli
+    except Exception as e:  # noqa
+        out.inconclusive = f"cli-not-importable:{type(e).__name__}"
+        return
+    names = {"kelvin": "kelvin", "celsius": "celsius", "fahrenheit": "fahrenheit", "rankine": "rankine"}
+    n = 0
+    for s in CHAIN:
+        for sp in PFX_KEYS:
+            pfx, pv = PFX[sp]
+            unit = UNITS[s] if pfx is None else pfx * UNITS[s]
+            for mag in (1, 0, -40, 2.5, 300):
+                try:
+                    text = str(M.Quantity(mag, unit))
+                    if M.Quantity.parse(text).unit is not unit:
+                        continue
+                except Exception:  # noqa -- rendering / parsing are C13's subject
+                    continue
+                buf = io.StringIO()
+                try:
+                    with contextlib.redirect_stdout(buf):
+                        cli.print_quantity(text)
+                except SystemExit:
+                    continue
+                except Exception as e:  # noqa
+                    out.fail(f"C10:cli:raises:{type(e).__name__}@{core.innermost_frame(e)}", f"measured {text!r}: {type(e).__name__}: {e}")
+                    continue
+                k = to_k(s, Fraction(mag) * pv)
+                lines = buf.getvalue().split("Equivalent to:")[-1].splitlines()
+                listed = {}
+                for line in lines:
+                    parts = line.split()
+                    if len(parts) >= 2 and " ".join(parts[1:]).lower() in names:
+                        try:
+                            listed[" ".join(parts[1:]).lower()] = float(parts[0])
+                        except ValueError:
+                            pass
+                for d in CHAIN:
+                    if d == s:
+                        continue
+                    if d not in listed:
+                        out.fail("C10:cli:scale-not-listed", f"measured {text!r} does not list {d}")
+                        continue
+                    want = from_k(d, k)
+                    n += 1
+                    tol = 1e-9 * max(abs(float(k)), abs(float(want)), abs(float(Fraction(mag) * pv)), 1.0)
+                    if abs(listed[d] - float(want)) > tol:
+                        out.fail(f"C10:cli:value:{leg_shape(s, sp, d, '')}", f"measured {text!r} lists {listed[d]!r} {d}, the affine definitions give {float(want)!r}")
+                if len(out.failures) > 8:
+                    return
+    out.classes.append("cli-listing")
+    out.nontrivial = "cli-listing"
+    out.sample = {"cli_values_checked": n}
+
+
 def run_case(case) -> core.Outcome:
     out = core.Outcome()
     if not UNITS:
         setup("quick")
+    if isinstance(case, dict) and case.get("cli"):
+        _run_cli(out)
+        return out
     try:
         s, sp, d, dp = case["s"], case["sp"], case["d"], case["dp"]
         if s not in IDX or d not in IDX or s == d or sp not in PFX or dp not in PFX:
